@@ -291,6 +291,30 @@ Proof.
     cbn [dot_list combine map]; rs; try ring.
   rewrite <- IH by lia. rewrite vdot_vadd_r. ring.
 Qed.
+Lemma vadd_list_length (l r : list RV) : length r = length l -> length (vadd_list Rops l r) = length l.
+Proof.
+  revert r; induction l as [|a l IH]; intros [|b r] H; cbn [length vadd_list] in *; try discriminate; try reflexivity.
+  rewrite IH by lia. reflexivity.
+Qed.
+Lemma dot_list_vadd_list (l a b : list RV) : length a = length b ->
+  dot_list Rops l a + dot_list Rops l b = dot_list Rops l (vadd_list Rops a b).
+Proof.
+  revert a b; induction l as [|x l IH]; intros [|u a] [|v b] H; cbn [length] in H; try discriminate;
+    cbn [dot_list vadd_list]; rs; try ring.
+  rewrite <- IH by lia. rewrite vdot_vadd_r. ring.
+Qed.
+(* the inverse gradient along a complete gradient G = g + fit: projecting the forces fc g + fc fit on G / sum |G|^2 gives fc *)
+Lemma inv_complete_gradient ids (g fit : list RV) fc : NoDup ids -> length g = length ids -> length fit = length ids ->
+  norm2_sum Rops (vadd_list Rops g fit) <> 0 ->
+  adot Rops ids (vadd_list Rops g fit) (fadd Rops (aapply Rops ids g fc) (aapply Rops ids fit fc)) / norm2_sum Rops (vadd_list Rops g fit) = fc.
+Proof.
+  intros Hn Hg Hf Hs.
+  assert (HG : length (vadd_list Rops g fit) = length ids) by (rewrite vadd_list_length; lia).
+  rewrite adot_fadd, !adot_aapply by (try exact Hn; lia).
+  replace (fc * dot_list Rops (vadd_list Rops g fit) g + fc * dot_list Rops (vadd_list Rops g fit) fit)
+    with (fc * (dot_list Rops (vadd_list Rops g fit) g + dot_list Rops (vadd_list Rops g fit) fit)) by ring.
+  rewrite dot_list_vadd_list by lia. rewrite dot_list_self. field. exact Hs.
+Qed.
 Lemma norm2_sum_nonneg (l : list RV) : 0 <= norm2_sum Rops l.
 Proof.
   induction l as [|a l IH]; unfold norm2_sum in *; cbn [map]; [unfold tsum; cbn [fold_right]; rs; lra|].
@@ -590,15 +614,32 @@ Section Components.
     - destruct (IH cur) as [E|E]; [left; exact E | right; right; exact E].
   Qed.
   (* symmetry-adapted rmsd: whichever copy of the reference is selected, application and measurement use the same one *)
-  Lemma inv_rmsd ids refs extra c fc : NoDup ids ->
-    (forall r, In r (refs :: extra) -> length r = length ids) ->
-    rmsd_value Rops pos ids (rmsd_best Rops pos ids refs extra c) c <> 0 ->
-    (forall rc, c = Some rc -> forall r, In r (refs :: extra) -> vsum Rops r = vscale Rops (ofnat Rops (length ids)) rc) ->
-    ft (CRmsd ids refs extra c) (app (CRmsd ids refs extra c) fc) = fc.
+  Lemma rmsd_grads_length ids r c : length r = length ids -> length (rmsd_grads Rops pos ids r c) = length ids.
   Proof.
-    intros Hn Hl Hx Hc. cbn [cvc_ft cvc_apply].
-    pose proof (best_copy_In (frame_pos Rops pos ids c) refs extra) as Hin. fold (rmsd_best Rops pos ids refs extra c) in Hin.
-    apply inv_rmsd_expr; [exact Hn | exact (Hl _ Hin) | exact Hx | intros rc E; exact (Hc rc E _ Hin)].
+    intros H. unfold rmsd_grads. rewrite map_length. unfold rmsd_diff. rewrite vsub_list_length; rewrite frame_pos_length; [reflexivity|exact H].
+  Qed.
+  (* not centred (no fit gradients): N times the gradient *)
+  Lemma inv_rmsd ids refs extra fc : NoDup ids ->
+    (forall r, In r (refs :: extra) -> length r = length ids) ->
+    rmsd_value Rops pos ids (rmsd_best Rops pos ids refs extra None) None <> 0 ->
+    ft (CRmsd ids refs extra None) (app (CRmsd ids refs extra None) fc) = fc.
+  Proof.
+    intros Hn Hl Hx. cbn [cvc_ft cvc_apply]. cbv zeta.
+    pose proof (best_copy_In (frame_pos Rops pos ids None) refs extra) as Hin. fold (rmsd_best Rops pos ids refs extra None) in Hin.
+    apply inv_rmsd_expr; [exact Hn | exact (Hl _ Hin) | exact Hx | intros rc E; discriminate].
+  Qed.
+  (* centred (fit gradients on): the complete gradient, whatever the centre of the group's own reference positions *)
+  Lemma inv_rmsd_centered ids refs extra rc fc : NoDup ids ->
+    (forall r, In r (refs :: extra) -> length r = length ids) ->
+    (let g := rmsd_grads Rops pos ids (rmsd_best Rops pos ids refs extra (Some rc)) (Some rc) in
+     norm2_sum Rops (vadd_list Rops g (fit_grads Rops (length ids) (Some rc) g)) <> 0) ->
+    ft (CRmsd ids refs extra (Some rc)) (app (CRmsd ids refs extra (Some rc)) fc) = fc.
+  Proof.
+    intros Hn Hl Hx. cbn [cvc_ft cvc_apply]. cbv zeta in *.
+    pose proof (best_copy_In (frame_pos Rops pos ids (Some rc)) refs extra) as Hin. fold (rmsd_best Rops pos ids refs extra (Some rc)) in Hin.
+    set (g := rmsd_grads Rops pos ids (rmsd_best Rops pos ids refs extra (Some rc)) (Some rc)) in *.
+    assert (Hg : length g = length ids) by (apply rmsd_grads_length; exact (Hl _ Hin)).
+    apply inv_complete_gradient; [exact Hn | exact Hg | rewrite fit_grads_length; exact Hg | exact Hx].
   Qed.
 
   Lemma vsum_eig_vec (evec : list RV) : evec <> [] -> vsum Rops (eig_vec Rops evec) = v0.
@@ -685,16 +726,40 @@ Section Rotated.
     assert (HS : norm2_sum Rops D = N * (x * x)) by (rewrite Hsq; field; lra).
     rewrite HS. unfold k. field. split; lra.
   Qed.
-  Lemma inv_rmsd_rot ids refs extra rotf jdf fc : NoDup ids ->
-    (forall r, In r (refs :: extra) -> length r = length ids) -> qnorm2 Rops (rotf pos) = 1 ->
-    rmsdrot_value Rops pos ids refs (rotmat Rops (rotf pos)) (rmsdrot_best Rops pos ids refs extra (rotmat Rops (rotf pos))) <> 0 ->
-    ft (CRmsdRot ids refs extra rotf jdf) (app (CRmsdRot ids refs extra rotf jdf) fc) = fc.
+  (* standard rotated rmsd (no atomPermutation): fit gradients disabled *)
+  Lemma inv_rmsd_rot ids refs rotf jdf fitf fc : NoDup ids -> length refs = length ids -> qnorm2 Rops (rotf pos) = 1 ->
+    rmsdrot_value Rops pos ids refs (rotmat Rops (rotf pos)) refs <> 0 ->
+    ft (CRmsdRot ids refs [] rotf jdf fitf) (app (CRmsdRot ids refs [] rotf jdf fitf) fc) = fc.
   Proof.
-    intros Hn Hl Hq Hx. cbn [cvc_ft cvc_apply]. cbv zeta.
-    pose proof (best_copy_In (rot_frame Rops pos ids refs (rotmat Rops (rotf pos))) refs extra) as Hin.
-    fold (rmsdrot_best Rops pos ids refs extra (rotmat Rops (rotf pos))) in Hin.
+    intros Hn Hl Hq Hx. cbn [cvc_ft cvc_apply]. cbv zeta. cbn [rmsdrot_best best_copy].
     rewrite (map_ext _ (mtvmul Rops (rotmat Rops (rotf pos))) (rotmat_conj (rotf pos))).
-    apply inv_rmsd_rot_expr; [exact Hn | exact (Hl _ Hin) | apply rotmat_orthogonal; exact Hq | exact Hx].
+    apply inv_rmsd_rot_expr; [exact Hn | exact Hl | apply rotmat_orthogonal; exact Hq | exact Hx].
+  Qed.
+  Lemma frot_fadd (m : RM) (A B : RF) b : frot Rops m (fadd Rops A B) b = fadd Rops (frot Rops m A) (frot Rops m B) b.
+  Proof. unfold frot, fadd. apply mvmul_vadd. Qed.
+  Lemma rmsdrot_grads_length ids refs (m : RM) r : length r = length ids -> length (rmsdrot_grads Rops pos ids refs m r) = length ids.
+  Proof.
+    intros H. unfold rmsdrot_grads. rewrite map_length. unfold rmsdrot_diff. rewrite vsub_list_length; rewrite rot_frame_length; [reflexivity|exact H].
+  Qed.
+  (* symmetry-adapted rotated rmsd: the forces contain fc * fit_gradients (derivatives of the optimal rotation, an input):
+     the projection on the complete gradient is the inverse for EVERY value of that input *)
+  Lemma inv_rmsd_rot_perm ids refs e es rotf jdf fitf fc : NoDup ids ->
+    (forall r, In r (refs :: e :: es) -> length r = length ids) -> length (fitf pos) = length ids -> qnorm2 Rops (rotf pos) = 1 ->
+    (let R := rotmat Rops (rotf pos) in
+     let g := rmsdrot_grads Rops pos ids refs R (rmsdrot_best Rops pos ids refs (e :: es) R) in
+     norm2_sum Rops (vadd_list Rops g (map (mvmul Rops R) (fitf pos))) <> 0) ->
+    ft (CRmsdRot ids refs (e :: es) rotf jdf fitf) (app (CRmsdRot ids refs (e :: es) rotf jdf fitf) fc) = fc.
+  Proof.
+    intros Hn Hl Hf Hq Hx. cbn [cvc_ft cvc_apply]. cbv zeta in *. set (Rm := rotmat Rops (rotf pos)) in *.
+    assert (Ho : orthogonal Rm) by (apply rotmat_orthogonal; exact Hq).
+    pose proof (best_copy_In (rot_frame Rops pos ids refs Rm) refs (e :: es)) as Hin.
+    fold (rmsdrot_best Rops pos ids refs (e :: es) Rm) in Hin.
+    set (g := rmsdrot_grads Rops pos ids refs Rm (rmsdrot_best Rops pos ids refs (e :: es) Rm)) in *.
+    assert (Hg : length g = length ids) by (apply rmsdrot_grads_length; exact (Hl _ Hin)).
+    rewrite (map_ext _ (mtvmul Rops Rm) (rotmat_conj (rotf pos))).
+    rewrite (adot_ext ids _ _ (fadd Rops (aapply Rops ids g fc) (aapply Rops ids (map (mvmul Rops Rm) (fitf pos)) fc))).
+    - apply inv_complete_gradient; [exact Hn | exact Hg | rewrite map_length; exact Hf | exact Hx].
+    - intros b _. rewrite frot_fadd. unfold fadd. rewrite !frot_aapply, map_orthogonal by exact Ho. reflexivity.
   Qed.
 
   Lemma inv_eigenvector_rot ids refs evec rotf jdf fc : NoDup ids -> length evec = length ids -> qnorm2 Rops (rotf pos) = 1 ->
@@ -725,7 +790,7 @@ Section General.
   Lemma cvc_ft_linear (c : RC) (F G : RF) a b :
     ft c (fadd Rops (fscale Rops a F) (fscale Rops b G)) = a * ft c F + b * ft c G.
   Proof.
-    destruct c as [g1 g2 os|gm gr gr2 axis os|gm gr gr2 axis os|g1 g2 g3 os|g1 g2 g3 g4 os|ids|ids refs extra c|ids refs evec c|ids refs extra rotf jdf|ids refs evec rotf jdf];
+    destruct c as [g1 g2 os|gm gr gr2 axis os|gm gr gr2 axis os|g1 g2 g3 os|g1 g2 g3 g4 os|ids|ids refs extra c|ids refs evec c|ids refs extra rotf jdf fitf|ids refs evec rotf jdf];
       cbn [cvc_ft]; rewrite ?gforce_fadd, ?gforce_fscale, ?adot_fadd, ?adot_fscale.
     - set (u := vunit Rops _). set (x := gforce Rops F g1). set (y := gforce Rops G g1).
       set (x' := gforce Rops F g2). set (y' := gforce Rops G g2). destruct os; vd; vu; unfold Rdiv; ring.
@@ -742,12 +807,17 @@ Section General.
       set (x := gforce Rops F g1). set (y := gforce Rops G g1).
       set (x' := gforce Rops F g4). set (y' := gforce Rops G g4). destruct os; vd; vu; unfold Rdiv; ring.
     - ring.
-    - rs. ring.
+    - cbv zeta. destruct c; rs; unfold Rdiv; ring.
     - ring.
-    - cbv zeta. rewrite (adot_ext _ _ (frot Rops (rotmat Rops (rotf pos)) (fadd Rops (fscale Rops a F) (fscale Rops b G)))
+    - cbv zeta. destruct extra.
+      + rewrite (adot_ext _ _ (frot Rops (rotmat Rops (rotf pos)) (fadd Rops (fscale Rops a F) (fscale Rops b G)))
                  (fadd Rops (fscale Rops a (frot Rops (rotmat Rops (rotf pos)) F)) (fscale Rops b (frot Rops (rotmat Rops (rotf pos)) G))))
-        by (intros x _; unfold frot, fadd, fscale; rewrite mvmul_vadd, !mvmul_vscale; reflexivity).
-      rewrite adot_fadd, !adot_fscale. rs. ring.
+          by (intros x _; unfold frot, fadd, fscale; rewrite mvmul_vadd, !mvmul_vscale; reflexivity).
+        rewrite adot_fadd, !adot_fscale. rs. ring.
+      + rewrite (adot_ext _ _ (frot Rops (rotmat Rops (rotf pos)) (fadd Rops (fscale Rops a F) (fscale Rops b G)))
+                 (fadd Rops (fscale Rops a (frot Rops (rotmat Rops (rotf pos)) F)) (fscale Rops b (frot Rops (rotmat Rops (rotf pos)) G))))
+          by (intros x _; unfold frot, fadd, fscale; rewrite mvmul_vadd, !mvmul_vscale; reflexivity).
+        rewrite adot_fadd, !adot_fscale. rs. unfold Rdiv. ring.
     - cbv zeta. rewrite (adot_ext _ _ (frot Rops (rotmat Rops (rotf pos)) (fadd Rops (fscale Rops a F) (fscale Rops b G)))
                  (fadd Rops (fscale Rops a (frot Rops (rotmat Rops (rotf pos)) F)) (fscale Rops b (frot Rops (rotmat Rops (rotf pos)) G))))
         by (intros x _; unfold frot, fadd, fscale; rewrite mvmul_vadd, !mvmul_vscale; reflexivity).
@@ -759,7 +829,7 @@ Section General.
     intros H.
     assert (E : forall g, (forall a, In a (gids g) -> In a (cvc_atoms c)) -> gforce Rops F g = gforce Rops G g).
     { intros g Hg. apply gforce_ext. intros a Ha. apply H, Hg, Ha. }
-    destruct c as [g1 g2 os|gm gr gr2 axis os|gm gr gr2 axis os|g1 g2 g3 os|g1 g2 g3 g4 os|ids|ids refs extra c|ids refs evec c|ids refs extra rotf jdf|ids refs evec rotf jdf];
+    destruct c as [g1 g2 os|gm gr gr2 axis os|gm gr gr2 axis os|g1 g2 g3 os|g1 g2 g3 g4 os|ids|ids refs extra c|ids refs evec c|ids refs extra rotf jdf fitf|ids refs evec rotf jdf];
       cbn [cvc_ft cvc_atoms] in *.
     - rewrite (E g1), (E g2) by (intros a Ha; rewrite ?in_app_iff; tauto). reflexivity.
     - rewrite (E gm), (E gr) by (intros a Ha; rewrite ?in_app_iff; tauto). reflexivity.
@@ -767,9 +837,9 @@ Section General.
     - rewrite (E g1), (E g3) by (intros a Ha; rewrite ?in_app_iff; tauto). reflexivity.
     - rewrite (E g1), (E g4) by (intros a Ha; rewrite ?in_app_iff; tauto). reflexivity.
     - apply adot_ext. exact H.
-    - f_equal. apply adot_ext. exact H.
+    - cbv zeta. destruct c; f_equal; apply adot_ext; exact H.
     - apply adot_ext. exact H.
-    - cbv zeta. f_equal. apply adot_ext. intros x Hx. unfold frot. rewrite (H x Hx). reflexivity.
+    - cbv zeta. destruct extra; f_equal; apply adot_ext; intros x Hx; unfold frot; rewrite (H x Hx); reflexivity.
     - apply adot_ext. intros x Hx. unfold frot. rewrite (H x Hx). reflexivity.
   Qed.
 
@@ -779,7 +849,7 @@ Section General.
     intros H.
     assert (E : forall g, (forall a, In a (gids g) -> In a (cvc_measured c)) -> gforce Rops F g = gforce Rops G g).
     { intros g Hg. apply gforce_ext. intros a Ha. apply H, Hg, Ha. }
-    destruct c as [g1 g2 os|gm gr gr2 axis os|gm gr gr2 axis os|g1 g2 g3 os|g1 g2 g3 g4 os|ids|ids refs extra c|ids refs evec c|ids refs extra rotf jdf|ids refs evec rotf jdf];
+    destruct c as [g1 g2 os|gm gr gr2 axis os|gm gr gr2 axis os|g1 g2 g3 os|g1 g2 g3 g4 os|ids|ids refs extra c|ids refs evec c|ids refs extra rotf jdf fitf|ids refs evec rotf jdf];
       cbn [cvc_ft cvc_measured] in *.
     - destruct os; [rewrite (E g1) by (intros a Ha; exact Ha); reflexivity|].
       rewrite (E g1), (E g2) by (intros a Ha; rewrite ?in_app_iff; tauto). reflexivity.
@@ -794,9 +864,9 @@ Section General.
     - destruct os; [rewrite (E g1) by (intros a Ha; exact Ha); reflexivity|].
       rewrite (E g1), (E g4) by (intros a Ha; rewrite ?in_app_iff; tauto). reflexivity.
     - apply adot_ext. exact H.
-    - f_equal. apply adot_ext. exact H.
+    - cbv zeta. destruct c; f_equal; apply adot_ext; exact H.
     - apply adot_ext. exact H.
-    - cbv zeta. f_equal. apply adot_ext. intros x Hx. unfold frot. rewrite (H x Hx). reflexivity.
+    - cbv zeta. destruct extra; f_equal; apply adot_ext; intros x Hx; unfold frot; rewrite (H x Hx); reflexivity.
     - apply adot_ext. intros x Hx. unfold frot. rewrite (H x Hx). reflexivity.
   Qed.
 
@@ -805,7 +875,7 @@ Section General.
     intros H.
     assert (E : forall g v, (forall b, In b (gids g) -> In b (cvc_atoms c)) -> gapply Rops mass g v fc a = v0).
     { intros g v Hg. apply gapply_support. intros Ha. apply H, Hg, Ha. }
-    destruct c as [g1 g2 os|gm gr gr2 axis os|gm gr gr2 axis os|g1 g2 g3 os|g1 g2 g3 g4 os|ids|ids refs extra c|ids refs evec c|ids refs extra rotf jdf|ids refs evec rotf jdf];
+    destruct c as [g1 g2 os|gm gr gr2 axis os|gm gr gr2 axis os|g1 g2 g3 os|g1 g2 g3 g4 os|ids|ids refs extra c|ids refs evec c|ids refs extra rotf jdf fitf|ids refs evec rotf jdf];
       cbn [cvc_apply cvc_atoms] in *.
     - unfold fadd. rewrite !E by (intros b Hb; rewrite ?in_app_iff; tauto). apply vadd_0_l.
     - destruct gr2 as [g2|]; unfold fadd; rewrite !E by (intros b Hb; rewrite ?in_app_iff; tauto); rewrite ?vadd_0_l; reflexivity.
@@ -816,7 +886,8 @@ Section General.
     - apply aapply_support. exact H.
     - unfold fadd. rewrite !aapply_support by exact H. apply vadd_0_l.
     - unfold fadd. rewrite !aapply_support by exact H. apply vadd_0_l.
-    - apply aapply_support. exact H.
+    - cbv zeta. destruct extra; [apply aapply_support; exact H|].
+      unfold fadd. rewrite !aapply_support by exact H. apply vadd_0_l.
     - apply aapply_support. exact H.
   Qed.
 
@@ -944,45 +1015,46 @@ Section Steps.
   Local Notation estep := (eng_step Rops PI cell mass).
   Local Notation erun := (eng_run Rops PI cell mass).
 
-  Lemma step_same cv s pos F fb : cv_samestep cv = true ->
-    o_ft (snd (step cv s pos F fb)) = proj pos cv F + (if cv_hide cv then 0 else fjf pos cv).
+  Lemma step_same cv s pos F fb ap : cv_samestep cv = true ->
+    o_ft (snd (step cv s pos F fb ap)) = proj pos cv F + (if cv_hide cv then 0 else fjf pos cv).
   Proof.
     intros H. unfold cv_step, adds_fj. rewrite H. cbn [snd o_ft andb orb negb].
     destruct (cv_hide cv), (cv_subtract cv); cbn [andb orb negb]; rs; reflexivity.
   Qed.
-  Lemma step_lag cv s pos F fb : cv_samestep cv = false -> (0 < st_rel s)%nat ->
-    o_ft (snd (step cv s pos F fb)) =
-      proj (st_prev_pos s) cv F + (if adds_fj cv then st_fj s else 0) - (if cv_subtract cv then st_fold s else 0).
+  Lemma step_lag cv s pos F fb ap : cv_samestep cv = false -> (0 < st_rel s)%nat ->
+    o_ft (snd (step cv s pos F fb ap)) =
+      proj (st_prev_pos s) cv F + (if adds_fj cv (st_comp s) then st_fj s else 0) - (if cv_subtract cv then st_fold s else 0).
   Proof.
     intros H Hr. unfold cv_step. rewrite H. apply Nat.ltb_lt in Hr. rewrite Hr. cbn [snd o_ft andb orb negb].
     destruct (cv_subtract cv); cbn [andb orb negb]; rs; ring.
   Qed.
-  Lemma step_first_lag cv s pos F fb : cv_samestep cv = false -> st_rel s = 0%nat ->
-    o_ft (snd (step cv s pos F fb)) = st_ft s.
+  Lemma step_first_lag cv s pos F fb ap : cv_samestep cv = false -> st_rel s = 0%nat ->
+    o_ft (snd (step cv s pos F fb ap)) = st_ft s.
   Proof.
     intros H Hr. unfold cv_step. rewrite H, Hr. cbn [snd o_ft andb orb negb Nat.ltb Nat.leb].
     destruct (cv_subtract cv); reflexivity.
   Qed.
-  Lemma step_state cv s pos F fb :
-    let r := step cv s pos F fb in
-    let f := applied_force Rops cv fb (fjf pos cv) in
+  Lemma step_state cv s pos F fb ap :
+    let r := step cv s pos F fb ap in
+    let f := applied_force Rops cv ap fb (fjf pos cv) in
     st_prev_pos (fst r) = pos /\ st_fj (fst r) = fjf pos cv /\ st_rel (fst r) = S (st_rel s) /\
     st_fold (fst r) = (if cv_subtract cv then f else st_fold s) /\
-    o_f (snd r) = f /\ o_forces (snd r) = capply pos cv f.
-  Proof. unfold cv_step. cbn [fst snd st_prev_pos st_fj st_rel st_fold o_f o_forces]. repeat split; reflexivity. Qed.
+    o_f (snd r) = f /\ o_forces (snd r) = (if ap then capply pos cv f else fzero Rops) /\
+    st_comp (fst r) = (cv_hide cv && ap)%bool.
+  Proof. unfold cv_step. cbn [fst snd st_prev_pos st_fj st_rel st_fold o_f o_forces st_comp]. repeat split; reflexivity. Qed.
 
   Lemma estep_eq cv inc s i :
     estep cv inc s i =
-      (let r := step cv (es_cv s) (e_pos i) (if cv_samestep cv then e_force i else es_prev_total s) (e_fb i) in
+      (let r := step cv (es_cv s) (e_pos i) (if cv_samestep cv then e_force i else es_prev_total s) (e_fb i) (e_apply i) in
        (mkEstate (fst r) (if inc then fadd Rops (e_force i) (o_forces (snd r)) else e_force i), snd r)).
-  Proof. unfold eng_step. destruct (cv_step _ _ _ _ _ _ _ _) as [cs out]. reflexivity. Qed.
+  Proof. unfold eng_step. destruct (cv_step _ _ _ _ _ _ _ _ _) as [cs out]. reflexivity. Qed.
 
   (* what the engine delivers in the lagged convention for the step of input i *)
-  Definition own_force (cv : colvar) (i : einput) : R := applied_force Rops cv (e_fb i) (fjf (e_pos i) cv).
+  Definition own_force (cv : colvar) (i : einput) : R := applied_force Rops cv (e_apply i) (e_fb i) (fjf (e_pos i) cv).
   Definition exerted (cv : colvar) (inc : bool) (i : einput) : RF :=
-    if inc then fadd Rops (e_force i) (capply (e_pos i) cv (own_force cv i)) else e_force i.
+    if inc then fadd Rops (e_force i) (if e_apply i then capply (e_pos i) cv (own_force cv i) else fzero Rops) else e_force i.
   Definition lag_report (cv : colvar) (inc : bool) (i : einput) : R :=
-    proj (e_pos i) cv (exerted cv inc i) + (if adds_fj cv then fjf (e_pos i) cv else 0)
+    proj (e_pos i) cv (exerted cv inc i) + (if adds_fj cv (cv_hide cv && e_apply i) then fjf (e_pos i) cv else 0)
     - (if cv_subtract cv then own_force cv i else 0).
   Definition same_report (cv : colvar) (i : einput) : R :=
     proj (e_pos i) cv (e_force i) + (if cv_hide cv then 0 else fjf (e_pos i) cv).
@@ -992,11 +1064,11 @@ Section Steps.
   Proof.
     intros H. rewrite (estep_eq cv inc _ i2). cbv zeta. cbn [snd]. rewrite H.
     rewrite (estep_eq cv inc s0 i1). cbv zeta. cbn [fst es_cv es_prev_total]. rewrite H.
-    set (r1 := step cv (es_cv s0) (e_pos i1) (es_prev_total s0) (e_fb i1)).
-    pose proof (step_state cv (es_cv s0) (e_pos i1) (es_prev_total s0) (e_fb i1)) as St. cbv zeta in St. fold r1 in St.
-    destruct St as (Sp & Sj & Sr & Sf & So & Sc).
+    set (r1 := step cv (es_cv s0) (e_pos i1) (es_prev_total s0) (e_fb i1) (e_apply i1)).
+    pose proof (step_state cv (es_cv s0) (e_pos i1) (es_prev_total s0) (e_fb i1) (e_apply i1)) as St. cbv zeta in St. fold r1 in St.
+    destruct St as (Sp & Sj & Sr & Sf & So & Sc & Sm).
     rewrite step_lag by (try exact H; rewrite Sr; lia).
-    rewrite Sp, Sj, Sf, Sc. unfold lag_report, exerted, own_force.
+    rewrite Sp, Sj, Sf, Sc, Sm. unfold lag_report, exerted, own_force.
     destruct inc, (cv_subtract cv); reflexivity.
   Qed.
   Lemma one_step_same cv inc s i : cv_samestep cv = true -> o_ft (snd (estep cv inc s i)) = same_report cv i.
@@ -1053,10 +1125,16 @@ Section Steps.
     ForallOrdPairs (fun p q => atoms_disj (fst p) (fst q)) (cv_comps cv) /\
     cv_sqnorm Rops cv <> 0.
 
-  Lemma proj_exerted cv i : cv_inv_ok (e_pos i) cv ->
+  Lemma proj_exerted cv i : e_apply i = true -> cv_inv_ok (e_pos i) cv ->
     proj (e_pos i) cv (exerted cv true i) = proj (e_pos i) cv (e_force i) + own_force cv i.
   Proof.
-    intros (Hi & Hd & Hs). unfold exerted. rewrite cv_proj_fadd, cv_inverse by assumption. reflexivity.
+    intros Ha (Hi & Hd & Hs). unfold exerted. rewrite Ha, cv_proj_fadd, cv_inverse by assumption. reflexivity.
+  Qed.
+  (* no bias applies a force at the step: nothing of Colvars is in the engine's total force *)
+  Lemma proj_exerted_off cv inc i : e_apply i = false -> proj (e_pos i) cv (exerted cv inc i) = proj (e_pos i) cv (e_force i).
+  Proof.
+    intros Ha. unfold exerted. rewrite Ha. destruct inc; [|reflexivity].
+    apply cv_proj_local. intros a _. unfold fadd, fzero. fold v0. apply vadd_0_r.
   Qed.
   Lemma proj_vanish cv pos (F : RF) : (forall a, In a (cv_atoms cv) -> F a = v0) -> proj pos cv F = 0.
   Proof.
@@ -1095,37 +1173,51 @@ Section Final.
   (* lagged convention, the engine hands back exactly what Colvars applied (its own force is zero on the
      variable's atoms): the report of the next step *)
   Lemma inverse_lagged cv pre s i1 i2 :
-    cv_samestep cv = false -> cv_inv_ok cell mass (e_pos i1) cv -> (forall a, In a (cv_atoms cv) -> e_force i1 a = v0) ->
+    cv_samestep cv = false -> e_apply i1 = true -> cv_inv_ok cell mass (e_pos i1) cv ->
+    (forall a, In a (cv_atoms cv) -> e_force i1 a = v0) ->
     last_ft (snd (erun cv true s (pre ++ [i1; i2]))) =
-      own_force cell mass cv i1 + (if adds_fj cv then fjf (e_pos i1) cv else 0) - (if cv_subtract cv then own_force cell mass cv i1 else 0).
+      own_force cell mass cv i1 + (if adds_fj cv (cv_hide cv) then fjf (e_pos i1) cv else 0)
+      - (if cv_subtract cv then own_force cell mass cv i1 else 0).
   Proof.
-    intros H Hok Hz. rewrite history_lag by exact H. unfold lag_report.
-    rewrite proj_exerted by exact Hok. rewrite (proj_vanish cell mass cv (e_pos i1) (e_force i1) Hz). ring.
+    intros H Ha Hok Hz. rewrite history_lag by exact H. unfold lag_report.
+    rewrite proj_exerted by assumption. rewrite (proj_vanish cell mass cv (e_pos i1) (e_force i1) Hz).
+    rewrite Ha, andb_true_r. ring.
   Qed.
   Lemma inverse_lagged_jacobian cv pre s i1 i2 :
-    cv_samestep cv = false -> cv_hide cv = false -> cv_subtract cv = false ->
+    cv_samestep cv = false -> e_apply i1 = true -> cv_hide cv = false -> cv_subtract cv = false ->
     cv_inv_ok cell mass (e_pos i1) cv -> (forall a, In a (cv_atoms cv) -> e_force i1 a = v0) ->
     last_ft (snd (erun cv true s (pre ++ [i1; i2]))) = e_fb i1 + fjf (e_pos i1) cv.
   Proof.
-    intros H Hh Hs Hok Hz. rewrite inverse_lagged by assumption.
+    intros H Ha Hh Hs Hok Hz. rewrite inverse_lagged by assumption.
     unfold own_force, applied_force, adds_fj. rewrite Hh, Hs. cbn [andb negb]. ring.
   Qed.
   Lemma inverse_lagged_hidden cv pre s i1 i2 :
-    cv_samestep cv = false -> cv_hide cv = true -> cv_subtract cv = false ->
+    cv_samestep cv = false -> e_apply i1 = true -> cv_hide cv = true -> cv_subtract cv = false ->
     cv_inv_ok cell mass (e_pos i1) cv -> (forall a, In a (cv_atoms cv) -> e_force i1 a = v0) ->
     last_ft (snd (erun cv true s (pre ++ [i1; i2]))) = e_fb i1.
   Proof.
-    intros H Hh Hs Hok Hz. rewrite inverse_lagged by assumption.
-    unfold own_force, applied_force, adds_fj. rewrite Hh, Hs, H. cbn [andb orb negb]. rs. ring.
+    intros H Ha Hh Hs Hok Hz. rewrite inverse_lagged by assumption.
+    unfold own_force, applied_force, adds_fj. rewrite Hh, Hs, H, Ha. cbn [andb orb negb]. rs. ring.
   Qed.
   Lemma inverse_lagged_T0 cv pre s i1 i2 :
-    cv_samestep cv = false -> cv_kT cv = 0 -> cv_subtract cv = false ->
+    cv_samestep cv = false -> e_apply i1 = true -> cv_kT cv = 0 -> cv_subtract cv = false ->
     cv_inv_ok cell mass (e_pos i1) cv -> (forall a, In a (cv_atoms cv) -> e_force i1 a = v0) ->
     last_ft (snd (erun cv true s (pre ++ [i1; i2]))) = e_fb i1.
   Proof.
-    intros H HT Hs Hok Hz. rewrite inverse_lagged by assumption.
+    intros H Ha HT Hs Hok Hz. rewrite inverse_lagged by assumption.
     unfold own_force, applied_force. rewrite Hs, (cv_fj_T0 cell mass cv (e_pos i1) HT). rs.
-    destruct (cv_hide cv), (adds_fj cv); ring.
+    destruct (cv_hide cv && e_apply i1)%bool, (adds_fj cv (cv_hide cv)); ring.
+  Qed.
+  (* a step at which no bias applies a force to the variable: the report of the next step is the projection of the engine's
+     forces, plus the Jacobian term unless hidden (hidden: nothing was compensated, nothing is added), minus f_old = fb *)
+  Lemma lagged_not_applied cv inc pre s i1 i2 :
+    cv_samestep cv = false -> e_apply i1 = false ->
+    last_ft (snd (erun cv inc s (pre ++ [i1; i2]))) =
+      proj (e_pos i1) cv (e_force i1) + (if cv_hide cv then 0 else fjf (e_pos i1) cv) - (if cv_subtract cv then e_fb i1 else 0).
+  Proof.
+    intros H Ha. rewrite history_lag by exact H. unfold lag_report.
+    rewrite proj_exerted_off by exact Ha. unfold own_force, applied_force, adds_fj. rewrite Ha, andb_false_r.
+    destruct (cv_hide cv); cbn [andb orb negb]; [rewrite orb_true_r|]; cbn [andb negb]; ring.
   Qed.
   (* same-step convention: the engine's force field is exactly the distribution of a variable force f *)
   Lemma inverse_same cv inc pre s i f :
@@ -1140,30 +1232,30 @@ Section Final.
 
   (* subtractAppliedForce: what is reported is the projection of the engine's own forces *)
   Lemma subtract_applied cv pre s i1 i2 :
-    cv_samestep cv = false -> cv_subtract cv = true -> cv_inv_ok cell mass (e_pos i1) cv ->
+    cv_samestep cv = false -> e_apply i1 = true -> cv_subtract cv = true -> cv_inv_ok cell mass (e_pos i1) cv ->
     last_ft (snd (erun cv true s (pre ++ [i1; i2]))) =
       proj (e_pos i1) cv (e_force i1) + (if cv_hide cv then 0 else fjf (e_pos i1) cv).
   Proof.
-    intros H Hs Hok. rewrite history_lag by exact H. unfold lag_report.
-    rewrite proj_exerted by exact Hok. unfold adds_fj. rewrite Hs. destruct (cv_hide cv); cbn [andb orb negb]; ring.
+    intros H Ha Hs Hok. rewrite history_lag by exact H. unfold lag_report.
+    rewrite proj_exerted by assumption. unfold adds_fj. rewrite Hs. destruct (cv_hide cv); cbn [andb orb negb]; ring.
   Qed.
   Lemma without_subtract cv pre s i1 i2 :
-    cv_samestep cv = false -> cv_subtract cv = false -> cv_inv_ok cell mass (e_pos i1) cv ->
+    cv_samestep cv = false -> e_apply i1 = true -> cv_subtract cv = false -> cv_inv_ok cell mass (e_pos i1) cv ->
     last_ft (snd (erun cv true s (pre ++ [i1; i2]))) =
-      proj (e_pos i1) cv (e_force i1) + own_force cell mass cv i1 + (if adds_fj cv then fjf (e_pos i1) cv else 0).
+      proj (e_pos i1) cv (e_force i1) + own_force cell mass cv i1 + (if adds_fj cv (cv_hide cv) then fjf (e_pos i1) cv else 0).
   Proof.
-    intros H Hs Hok. rewrite history_lag by exact H. unfold lag_report.
-    rewrite proj_exerted by exact Hok. rewrite Hs. ring.
+    intros H Ha Hs Hok. rewrite history_lag by exact H. unfold lag_report.
+    rewrite proj_exerted by assumption. rewrite Hs, Ha, andb_true_r. ring.
   Qed.
 
   (* locality at the level of reports *)
   Lemma local_lagged cv inc pre pre' s s' i1 i1' i2 i2' :
-    cv_samestep cv = false -> e_pos i1 = e_pos i1' -> e_fb i1 = e_fb i1' ->
+    cv_samestep cv = false -> e_pos i1 = e_pos i1' -> e_fb i1 = e_fb i1' -> e_apply i1 = e_apply i1' ->
     (forall a, In a (cv_atoms cv) -> e_force i1 a = e_force i1' a) ->
     last_ft (snd (erun cv inc s (pre ++ [i1; i2]))) = last_ft (snd (erun cv inc s' (pre' ++ [i1'; i2']))).
   Proof.
-    intros H Hp Hb HF. rewrite !history_lag by exact H. unfold lag_report, exerted, own_force.
-    rewrite <- Hp, <- Hb. f_equal. f_equal. apply cv_proj_local. intros a Ha.
+    intros H Hp Hb Hap HF. rewrite !history_lag by exact H. unfold lag_report, exerted, own_force.
+    rewrite <- Hp, <- Hb, <- Hap. f_equal. f_equal. apply cv_proj_local. intros a Ha.
     destruct inc; [unfold fadd; rewrite (HF a Ha); reflexivity | exact (HF a Ha)].
   Qed.
   Lemma local_same cv inc pre pre' s s' i i' :
@@ -1354,6 +1446,21 @@ Qed.
 Lemma ex_cv_pm1 h sb sm kT : cv_comps (ex_cv h sb sm kT) <> [] /\ Forall (fun p => snd p = 1 \/ snd p = -1) (cv_comps (ex_cv h sb sm kT)).
 Proof. split; [discriminate|]. unfold ex_cv; cbn [cv_comps]. constructor; [left; reflexivity|]. constructor; [right; reflexivity|]. constructor. Qed.
 
+Lemma ex_rmsd_centered :
+  let g := rmsd_grads Rops ex_pos [0%nat; 1%nat] (rmsd_best Rops ex_pos [0%nat; 1%nat] ex_refs [] (Some (0, 0, 0))) (Some (0, 0, 0)) in
+  norm2_sum Rops (vadd_list Rops g (fit_grads Rops (length [0%nat; 1%nat]) (Some (0, 0, 0)) g)) <> 0.
+Proof.
+  cbv zeta. cbn [rmsd_best best_copy].
+  assert (Hx : rmsd_value Rops ex_pos [0%nat; 1%nat] ex_refs (Some (0, 0, 0)) = 1 / 2).
+  { unfold rmsd_value, rmsd_diff, frame_pos. rewrite ex_cog2. unfold norm2_sum, tsum, ofnat, ex_refs.
+    cbn [map fold_right length ex_pos vsub_list]. unfold vnorm2, vdot, vsub, vadd. rs. change (IZR (Z.of_nat 2)) with 2.
+    match goal with |- sqrt ?e = _ => replace e with ((1 / 2) * (1 / 2)) by field end. apply sqrt_square. lra. }
+  unfold rmsd_grads. rewrite Hx. rs. assert (Rltb 0 (1 / 2) = true) as -> by (apply Rltb_true; lra).
+  unfold rmsd_diff, frame_pos. rewrite ex_cog2. unfold fit_grads, norm2_sum, tsum, ofnat, ex_refs, vsum.
+  cbn [map fold_right length ex_pos vsub_list vadd_list]. unfold vnorm2, vdot, vsub, vadd, vscale, vzero. rs. change (IZR (Z.of_nat 2)) with 2.
+  match goal with |- ?e <> 0 => replace e with (1 / 2) by field end. lra.
+Qed.
+
 (* ================================================================== statements of Properties_C07.v, verbatim *)
 Lemma thm_inverse_distance : forall (cell : option RV) (mass : nat -> R) (pos : RF) (g1 g2 : RG) (fc : R),
   gok mass g1 -> gok mass g2 -> disj g1 g2 ->
@@ -1410,22 +1517,34 @@ Lemma thm_inverse_gyration : forall (cell : option RV) (mass : nat -> R) (pos : 
   NoDup ids -> gyr_value Rops pos ids <> 0 ->
   cvc_ft Rops PI cell mass pos (CGyration ids) (cvc_apply Rops PI cell mass pos (CGyration ids) fc) = fc.
 Proof. exact inv_gyration. Qed.
-Lemma thm_inverse_rmsd : forall (cell : option RV) (mass : nat -> R) (pos : RF) (ids : list nat) (refs : list RV) (extra : list (list RV)) (center : option RV) (fc : R),
+Lemma thm_inverse_rmsd : forall (cell : option RV) (mass : nat -> R) (pos : RF) (ids : list nat) (refs : list RV) (extra : list (list RV)) (fc : R),
   NoDup ids -> (forall r, In r (refs :: extra) -> length r = length ids) ->
-  rmsd_value Rops pos ids (rmsd_best Rops pos ids refs extra center) center <> 0 ->
-  (forall rc, center = Some rc -> forall r, In r (refs :: extra) -> vsum Rops r = vscale Rops (ofnat Rops (length ids)) rc) ->
-  cvc_ft Rops PI cell mass pos (CRmsd ids refs extra center) (cvc_apply Rops PI cell mass pos (CRmsd ids refs extra center) fc) = fc.
+  rmsd_value Rops pos ids (rmsd_best Rops pos ids refs extra None) None <> 0 ->
+  cvc_ft Rops PI cell mass pos (CRmsd ids refs extra None) (cvc_apply Rops PI cell mass pos (CRmsd ids refs extra None) fc) = fc.
 Proof. exact inv_rmsd. Qed.
+Lemma thm_inverse_rmsd_centered : forall (cell : option RV) (mass : nat -> R) (pos : RF) (ids : list nat) (refs : list RV) (extra : list (list RV)) (rc : RV) (fc : R),
+  NoDup ids -> (forall r, In r (refs :: extra) -> length r = length ids) ->
+  (let g := rmsd_grads Rops pos ids (rmsd_best Rops pos ids refs extra (Some rc)) (Some rc) in
+   norm2_sum Rops (vadd_list Rops g (fit_grads Rops (length ids) (Some rc) g)) <> 0) ->
+  cvc_ft Rops PI cell mass pos (CRmsd ids refs extra (Some rc)) (cvc_apply Rops PI cell mass pos (CRmsd ids refs extra (Some rc)) fc) = fc.
+Proof. exact inv_rmsd_centered. Qed.
 Lemma thm_inverse_eigenvector : forall (cell : option RV) (mass : nat -> R) (pos : RF) (ids : list nat) (refs evec : list RV) (center : option RV) (fc : R),
   NoDup ids -> length evec = length ids -> norm2_sum Rops (eig_vec Rops evec) <> 0 ->
   cvc_ft Rops PI cell mass pos (CEigenvector ids refs evec center) (cvc_apply Rops PI cell mass pos (CEigenvector ids refs evec center) fc) = fc.
 Proof. exact inv_eigenvector. Qed.
-Lemma thm_inverse_rmsd_rotated : forall (cell : option RV) (mass : nat -> R) (pos : RF) (ids : list nat) (refs : list RV) (extra : list (list RV)) (rotf : RF -> RQ) (jdf : RF -> R) (fc : R),
-  NoDup ids -> (forall r, In r (refs :: extra) -> length r = length ids) ->
-  qnorm2 Rops (rotf pos) = 1 ->
-  rmsdrot_value Rops pos ids refs (rotmat Rops (rotf pos)) (rmsdrot_best Rops pos ids refs extra (rotmat Rops (rotf pos))) <> 0 ->
-  cvc_ft Rops PI cell mass pos (CRmsdRot ids refs extra rotf jdf) (cvc_apply Rops PI cell mass pos (CRmsdRot ids refs extra rotf jdf) fc) = fc.
+Lemma thm_inverse_rmsd_rotated : forall (cell : option RV) (mass : nat -> R) (pos : RF) (ids : list nat) (refs : list RV) (rotf : RF -> RQ) (jdf : RF -> R) (fitf : RF -> list RV) (fc : R),
+  NoDup ids -> length refs = length ids -> qnorm2 Rops (rotf pos) = 1 ->
+  rmsdrot_value Rops pos ids refs (rotmat Rops (rotf pos)) refs <> 0 ->
+  cvc_ft Rops PI cell mass pos (CRmsdRot ids refs [] rotf jdf fitf) (cvc_apply Rops PI cell mass pos (CRmsdRot ids refs [] rotf jdf fitf) fc) = fc.
 Proof. exact inv_rmsd_rot. Qed.
+Lemma thm_inverse_rmsd_rotated_permuted : forall (cell : option RV) (mass : nat -> R) (pos : RF) (ids : list nat) (refs : list RV) (e : list RV) (es : list (list RV)) (rotf : RF -> RQ) (jdf : RF -> R) (fitf : RF -> list RV) (fc : R),
+  NoDup ids -> (forall r, In r (refs :: e :: es) -> length r = length ids) -> length (fitf pos) = length ids ->
+  qnorm2 Rops (rotf pos) = 1 ->
+  (let R := rotmat Rops (rotf pos) in
+   let g := rmsdrot_grads Rops pos ids refs R (rmsdrot_best Rops pos ids refs (e :: es) R) in
+   norm2_sum Rops (vadd_list Rops g (map (mvmul Rops R) (fitf pos))) <> 0) ->
+  cvc_ft Rops PI cell mass pos (CRmsdRot ids refs (e :: es) rotf jdf fitf) (cvc_apply Rops PI cell mass pos (CRmsdRot ids refs (e :: es) rotf jdf fitf) fc) = fc.
+Proof. exact inv_rmsd_rot_perm. Qed.
 Lemma thm_rotation_matrices : forall q : RQ, qnorm2 Rops q = 1 ->
   (forall v : RV, mvmul Rops (rotmat Rops q) (mtvmul Rops (rotmat Rops q) v) = v) /\
   (forall v : RV, mvmul Rops (rotmat Rops (qconj Rops q)) v = mtvmul Rops (rotmat Rops q) v).
@@ -1451,39 +1570,45 @@ Lemma thm_pm1_combination : forall (cell : option RV) (mass : nat -> R) (cv : co
     tsum Rops (map (fun p => cvc_jd Rops PI cell mass pos (fst p) * snd p / ofnat Rops (length (cv_comps cv))) (cv_comps cv)) * cv_kT cv.
 Proof. exact pm1_combination. Qed.
 Lemma thm_inverse_lagged : forall (cell : option RV) (mass : nat -> R) (cv : colvar) (pre : list einput) (s : estate) (i1 i2 : einput),
-  cv_samestep cv = false ->
+  cv_samestep cv = false -> e_apply i1 = true ->
   Forall (fun p => forall fc, cvc_ft Rops PI cell mass (e_pos i1) (fst p) (cvc_apply Rops PI cell mass (e_pos i1) (fst p) fc) = fc) (cv_comps cv) ->
   ForallOrdPairs (fun p q => forall a, In a (cvc_atoms (fst p)) -> ~ In a (cvc_atoms (fst q))) (cv_comps cv) ->
   cv_sqnorm Rops cv <> 0 ->
   (forall a, In a (cv_atoms cv) -> e_force i1 a = vzero Rops) ->
   last_ft (snd (eng_run Rops PI cell mass cv true s (pre ++ [i1; i2]))) =
-    applied_force Rops cv (e_fb i1) (cv_fj Rops PI cell mass (e_pos i1) cv) + (if adds_fj cv then cv_fj Rops PI cell mass (e_pos i1) cv else 0)
-    - (if cv_subtract cv then applied_force Rops cv (e_fb i1) (cv_fj Rops PI cell mass (e_pos i1) cv) else 0).
-Proof. intros cell mass cv pre s i1 i2 H Hi Hd Hs Hz. assert (Hok : cv_inv_ok cell mass (e_pos i1) cv) by (repeat split; assumption). exact (inverse_lagged cell mass cv pre s i1 i2 H Hok Hz). Qed.
+    applied_force Rops cv (e_apply i1) (e_fb i1) (cv_fj Rops PI cell mass (e_pos i1) cv) + (if adds_fj cv (cv_hide cv) then cv_fj Rops PI cell mass (e_pos i1) cv else 0)
+    - (if cv_subtract cv then applied_force Rops cv (e_apply i1) (e_fb i1) (cv_fj Rops PI cell mass (e_pos i1) cv) else 0).
+Proof. intros cell mass cv pre s i1 i2 H Ha Hi Hd Hs Hz. assert (Hok : cv_inv_ok cell mass (e_pos i1) cv) by (repeat split; assumption). exact (inverse_lagged cell mass cv pre s i1 i2 H Ha Hok Hz). Qed.
 Lemma thm_inverse_lagged_jacobian : forall (cell : option RV) (mass : nat -> R) (cv : colvar) (pre : list einput) (s : estate) (i1 i2 : einput),
-  cv_samestep cv = false -> cv_hide cv = false -> cv_subtract cv = false ->
+  cv_samestep cv = false -> e_apply i1 = true -> cv_hide cv = false -> cv_subtract cv = false ->
   Forall (fun p => forall fc, cvc_ft Rops PI cell mass (e_pos i1) (fst p) (cvc_apply Rops PI cell mass (e_pos i1) (fst p) fc) = fc) (cv_comps cv) ->
   ForallOrdPairs (fun p q => forall a, In a (cvc_atoms (fst p)) -> ~ In a (cvc_atoms (fst q))) (cv_comps cv) ->
   cv_sqnorm Rops cv <> 0 ->
   (forall a, In a (cv_atoms cv) -> e_force i1 a = vzero Rops) ->
   last_ft (snd (eng_run Rops PI cell mass cv true s (pre ++ [i1; i2]))) = e_fb i1 + cv_fj Rops PI cell mass (e_pos i1) cv.
-Proof. intros cell mass cv pre s i1 i2 H Hh Hsb Hi Hd Hs Hz. assert (Hok : cv_inv_ok cell mass (e_pos i1) cv) by (repeat split; assumption). exact (inverse_lagged_jacobian cell mass cv pre s i1 i2 H Hh Hsb Hok Hz). Qed.
+Proof. intros cell mass cv pre s i1 i2 H Ha Hh Hsb Hi Hd Hs Hz. assert (Hok : cv_inv_ok cell mass (e_pos i1) cv) by (repeat split; assumption). exact (inverse_lagged_jacobian cell mass cv pre s i1 i2 H Ha Hh Hsb Hok Hz). Qed.
 Lemma thm_inverse_lagged_hidden : forall (cell : option RV) (mass : nat -> R) (cv : colvar) (pre : list einput) (s : estate) (i1 i2 : einput),
-  cv_samestep cv = false -> cv_hide cv = true -> cv_subtract cv = false ->
+  cv_samestep cv = false -> e_apply i1 = true -> cv_hide cv = true -> cv_subtract cv = false ->
   Forall (fun p => forall fc, cvc_ft Rops PI cell mass (e_pos i1) (fst p) (cvc_apply Rops PI cell mass (e_pos i1) (fst p) fc) = fc) (cv_comps cv) ->
   ForallOrdPairs (fun p q => forall a, In a (cvc_atoms (fst p)) -> ~ In a (cvc_atoms (fst q))) (cv_comps cv) ->
   cv_sqnorm Rops cv <> 0 ->
   (forall a, In a (cv_atoms cv) -> e_force i1 a = vzero Rops) ->
   last_ft (snd (eng_run Rops PI cell mass cv true s (pre ++ [i1; i2]))) = e_fb i1.
-Proof. intros cell mass cv pre s i1 i2 H Hh Hsb Hi Hd Hs Hz. assert (Hok : cv_inv_ok cell mass (e_pos i1) cv) by (repeat split; assumption). exact (inverse_lagged_hidden cell mass cv pre s i1 i2 H Hh Hsb Hok Hz). Qed.
+Proof. intros cell mass cv pre s i1 i2 H Ha Hh Hsb Hi Hd Hs Hz. assert (Hok : cv_inv_ok cell mass (e_pos i1) cv) by (repeat split; assumption). exact (inverse_lagged_hidden cell mass cv pre s i1 i2 H Ha Hh Hsb Hok Hz). Qed.
 Lemma thm_inverse_lagged_T0 : forall (cell : option RV) (mass : nat -> R) (cv : colvar) (pre : list einput) (s : estate) (i1 i2 : einput),
-  cv_samestep cv = false -> cv_kT cv = 0 -> cv_subtract cv = false ->
+  cv_samestep cv = false -> e_apply i1 = true -> cv_kT cv = 0 -> cv_subtract cv = false ->
   Forall (fun p => forall fc, cvc_ft Rops PI cell mass (e_pos i1) (fst p) (cvc_apply Rops PI cell mass (e_pos i1) (fst p) fc) = fc) (cv_comps cv) ->
   ForallOrdPairs (fun p q => forall a, In a (cvc_atoms (fst p)) -> ~ In a (cvc_atoms (fst q))) (cv_comps cv) ->
   cv_sqnorm Rops cv <> 0 ->
   (forall a, In a (cv_atoms cv) -> e_force i1 a = vzero Rops) ->
   last_ft (snd (eng_run Rops PI cell mass cv true s (pre ++ [i1; i2]))) = e_fb i1.
-Proof. intros cell mass cv pre s i1 i2 H HT Hsb Hi Hd Hs Hz. assert (Hok : cv_inv_ok cell mass (e_pos i1) cv) by (repeat split; assumption). exact (inverse_lagged_T0 cell mass cv pre s i1 i2 H HT Hsb Hok Hz). Qed.
+Proof. intros cell mass cv pre s i1 i2 H Ha HT Hsb Hi Hd Hs Hz. assert (Hok : cv_inv_ok cell mass (e_pos i1) cv) by (repeat split; assumption). exact (inverse_lagged_T0 cell mass cv pre s i1 i2 H Ha HT Hsb Hok Hz). Qed.
+Lemma thm_lagged_not_applied : forall (cell : option RV) (mass : nat -> R) (cv : colvar) (inc : bool) (pre : list einput) (s : estate) (i1 i2 : einput),
+  cv_samestep cv = false -> e_apply i1 = false ->
+  last_ft (snd (eng_run Rops PI cell mass cv inc s (pre ++ [i1; i2]))) =
+    cv_proj Rops PI cell mass (e_pos i1) cv (e_force i1) + (if cv_hide cv then 0 else cv_fj Rops PI cell mass (e_pos i1) cv)
+    - (if cv_subtract cv then e_fb i1 else 0).
+Proof. exact lagged_not_applied. Qed.
 Lemma thm_inverse_same_step : forall (cell : option RV) (mass : nat -> R) (cv : colvar) (inc : bool) (pre : list einput) (s : estate) (i : einput) (f : R),
   cv_samestep cv = true ->
   Forall (fun p => forall fc, cvc_ft Rops PI cell mass (e_pos i) (fst p) (cvc_apply Rops PI cell mass (e_pos i) (fst p) fc) = fc) (cv_comps cv) ->
@@ -1508,7 +1633,7 @@ Lemma thm_local_variable : forall (cell : option RV) (mass : nat -> R) (pos : RF
   (forall a, In a (cv_atoms cv) -> F a = G a) -> cv_proj Rops PI cell mass pos cv F = cv_proj Rops PI cell mass pos cv G.
 Proof. exact cv_proj_local. Qed.
 Lemma thm_local_report_lagged : forall (cell : option RV) (mass : nat -> R) (cv : colvar) (inc : bool) (pre pre' : list einput) (s s' : estate) (i1 i1' i2 i2' : einput),
-  cv_samestep cv = false -> e_pos i1 = e_pos i1' -> e_fb i1 = e_fb i1' ->
+  cv_samestep cv = false -> e_pos i1 = e_pos i1' -> e_fb i1 = e_fb i1' -> e_apply i1 = e_apply i1' ->
   (forall a, In a (cv_atoms cv) -> e_force i1 a = e_force i1' a) ->
   last_ft (snd (eng_run Rops PI cell mass cv inc s (pre ++ [i1; i2]))) = last_ft (snd (eng_run Rops PI cell mass cv inc s' (pre' ++ [i1'; i2']))).
 Proof. exact local_lagged. Qed.
@@ -1518,29 +1643,29 @@ Lemma thm_local_report_same_step : forall (cell : option RV) (mass : nat -> R) (
   last_ft (snd (eng_run Rops PI cell mass cv inc s (pre ++ [i]))) = last_ft (snd (eng_run Rops PI cell mass cv inc s' (pre' ++ [i']))).
 Proof. exact local_same. Qed.
 Lemma thm_subtract_applied : forall (cell : option RV) (mass : nat -> R) (cv : colvar) (pre : list einput) (s : estate) (i1 i2 : einput),
-  cv_samestep cv = false -> cv_subtract cv = true ->
+  cv_samestep cv = false -> e_apply i1 = true -> cv_subtract cv = true ->
   Forall (fun p => forall fc, cvc_ft Rops PI cell mass (e_pos i1) (fst p) (cvc_apply Rops PI cell mass (e_pos i1) (fst p) fc) = fc) (cv_comps cv) ->
   ForallOrdPairs (fun p q => forall a, In a (cvc_atoms (fst p)) -> ~ In a (cvc_atoms (fst q))) (cv_comps cv) ->
   cv_sqnorm Rops cv <> 0 ->
   last_ft (snd (eng_run Rops PI cell mass cv true s (pre ++ [i1; i2]))) =
     cv_proj Rops PI cell mass (e_pos i1) cv (e_force i1) + (if cv_hide cv then 0 else cv_fj Rops PI cell mass (e_pos i1) cv).
-Proof. intros cell mass cv pre s i1 i2 H Hsb Hi Hd Hs. assert (Hok : cv_inv_ok cell mass (e_pos i1) cv) by (repeat split; assumption). exact (subtract_applied cell mass cv pre s i1 i2 H Hsb Hok). Qed.
+Proof. intros cell mass cv pre s i1 i2 H Ha Hsb Hi Hd Hs. assert (Hok : cv_inv_ok cell mass (e_pos i1) cv) by (repeat split; assumption). exact (subtract_applied cell mass cv pre s i1 i2 H Ha Hsb Hok). Qed.
 Lemma thm_without_subtract : forall (cell : option RV) (mass : nat -> R) (cv : colvar) (pre : list einput) (s : estate) (i1 i2 : einput),
-  cv_samestep cv = false -> cv_subtract cv = false ->
+  cv_samestep cv = false -> e_apply i1 = true -> cv_subtract cv = false ->
   Forall (fun p => forall fc, cvc_ft Rops PI cell mass (e_pos i1) (fst p) (cvc_apply Rops PI cell mass (e_pos i1) (fst p) fc) = fc) (cv_comps cv) ->
   ForallOrdPairs (fun p q => forall a, In a (cvc_atoms (fst p)) -> ~ In a (cvc_atoms (fst q))) (cv_comps cv) ->
   cv_sqnorm Rops cv <> 0 ->
   last_ft (snd (eng_run Rops PI cell mass cv true s (pre ++ [i1; i2]))) =
-    cv_proj Rops PI cell mass (e_pos i1) cv (e_force i1) + applied_force Rops cv (e_fb i1) (cv_fj Rops PI cell mass (e_pos i1) cv)
-    + (if adds_fj cv then cv_fj Rops PI cell mass (e_pos i1) cv else 0).
-Proof. intros cell mass cv pre s i1 i2 H Hsb Hi Hd Hs. assert (Hok : cv_inv_ok cell mass (e_pos i1) cv) by (repeat split; assumption). exact (without_subtract cell mass cv pre s i1 i2 H Hsb Hok). Qed.
+    cv_proj Rops PI cell mass (e_pos i1) cv (e_force i1) + applied_force Rops cv (e_apply i1) (e_fb i1) (cv_fj Rops PI cell mass (e_pos i1) cv)
+    + (if adds_fj cv (cv_hide cv) then cv_fj Rops PI cell mass (e_pos i1) cv else 0).
+Proof. intros cell mass cv pre s i1 i2 H Ha Hsb Hi Hd Hs. assert (Hok : cv_inv_ok cell mass (e_pos i1) cv) by (repeat split; assumption). exact (without_subtract cell mass cv pre s i1 i2 H Ha Hsb Hok). Qed.
 Lemma thm_timing : forall (cell : option RV) (mass : nat -> R) (cv : colvar) (inc : bool) (i1 i2 : einput),
   cv_samestep cv = false -> forall (pre : list einput) (s : estate),
   last_ft (snd (eng_run Rops PI cell mass cv inc s (pre ++ [i1; i2]))) =
     cv_proj Rops PI cell mass (e_pos i1) cv
-      (if inc then fadd Rops (e_force i1) (cv_apply Rops PI cell mass (e_pos i1) cv (applied_force Rops cv (e_fb i1) (cv_fj Rops PI cell mass (e_pos i1) cv))) else e_force i1)
-    + (if adds_fj cv then cv_fj Rops PI cell mass (e_pos i1) cv else 0)
-    - (if cv_subtract cv then applied_force Rops cv (e_fb i1) (cv_fj Rops PI cell mass (e_pos i1) cv) else 0).
+      (if inc then fadd Rops (e_force i1) (if e_apply i1 then cv_apply Rops PI cell mass (e_pos i1) cv (applied_force Rops cv (e_apply i1) (e_fb i1) (cv_fj Rops PI cell mass (e_pos i1) cv)) else fzero Rops) else e_force i1)
+    + (if adds_fj cv (cv_hide cv && e_apply i1) then cv_fj Rops PI cell mass (e_pos i1) cv else 0)
+    - (if cv_subtract cv then applied_force Rops cv (e_apply i1) (e_fb i1) (cv_fj Rops PI cell mass (e_pos i1) cv) else 0).
 Proof. exact history_lag. Qed.
 Lemma thm_timing_same_step : forall (cell : option RV) (mass : nat -> R) (cv : colvar) (inc : bool) (i : einput),
   cv_samestep cv = true -> forall (pre : list einput) (s : estate),
@@ -1586,36 +1711,36 @@ Lemma ex_split_ok pos h sb sm kT :
   cv_sqnorm Rops (ex_cv h sb sm kT) <> 0.
 Proof. exact (ex_cv_ok pos h sb sm kT). Qed.
 Lemma ex_lagged_jacobian pre s pos fb1 i2 kT :
-  last_ft (snd (eng_run Rops PI None ex_mass (ex_cv false false false kT) true s (pre ++ [mkEinput pos (fzero Rops) fb1; i2])))
+  last_ft (snd (eng_run Rops PI None ex_mass (ex_cv false false false kT) true s (pre ++ [mkEinput pos (fzero Rops) fb1 true; i2])))
   = fb1 + cv_fj Rops PI None ex_mass pos (ex_cv false false false kT).
 Proof.
   destruct (ex_split_ok pos false false false kT) as (A & B & C).
-  exact (thm_inverse_lagged_jacobian None ex_mass (ex_cv false false false kT) pre s (mkEinput pos (fzero Rops) fb1) i2 eq_refl eq_refl eq_refl A B C (fun _ _ => eq_refl)).
+  exact (thm_inverse_lagged_jacobian None ex_mass (ex_cv false false false kT) pre s (mkEinput pos (fzero Rops) fb1 true) i2 eq_refl eq_refl eq_refl eq_refl A B C (fun _ _ => eq_refl)).
 Qed.
 Lemma ex_lagged_hidden pre s pos fb1 i2 kT :
-  last_ft (snd (eng_run Rops PI None ex_mass (ex_cv true false false kT) true s (pre ++ [mkEinput pos (fzero Rops) fb1; i2]))) = fb1.
+  last_ft (snd (eng_run Rops PI None ex_mass (ex_cv true false false kT) true s (pre ++ [mkEinput pos (fzero Rops) fb1 true; i2]))) = fb1.
 Proof.
   destruct (ex_split_ok pos true false false kT) as (A & B & C).
-  exact (thm_inverse_lagged_hidden None ex_mass (ex_cv true false false kT) pre s (mkEinput pos (fzero Rops) fb1) i2 eq_refl eq_refl eq_refl A B C (fun _ _ => eq_refl)).
+  exact (thm_inverse_lagged_hidden None ex_mass (ex_cv true false false kT) pre s (mkEinput pos (fzero Rops) fb1 true) i2 eq_refl eq_refl eq_refl eq_refl A B C (fun _ _ => eq_refl)).
 Qed.
 Lemma ex_lagged_T0 pre s pos fb1 i2 h :
-  last_ft (snd (eng_run Rops PI None ex_mass (ex_cv h false false 0) true s (pre ++ [mkEinput pos (fzero Rops) fb1; i2]))) = fb1.
+  last_ft (snd (eng_run Rops PI None ex_mass (ex_cv h false false 0) true s (pre ++ [mkEinput pos (fzero Rops) fb1 true; i2]))) = fb1.
 Proof.
   destruct (ex_split_ok pos h false false 0) as (A & B & C).
-  exact (thm_inverse_lagged_T0 None ex_mass (ex_cv h false false 0) pre s (mkEinput pos (fzero Rops) fb1) i2 eq_refl eq_refl eq_refl A B C (fun _ _ => eq_refl)).
+  exact (thm_inverse_lagged_T0 None ex_mass (ex_cv h false false 0) pre s (mkEinput pos (fzero Rops) fb1 true) i2 eq_refl eq_refl eq_refl eq_refl A B C (fun _ _ => eq_refl)).
 Qed.
 Lemma ex_same_step inc pre s pos fb f h sb kT :
   last_ft (snd (eng_run Rops PI None ex_mass (ex_cv h sb true kT) inc s
-                  (pre ++ [mkEinput pos (cv_apply Rops PI None ex_mass pos (ex_cv h sb true kT) f) fb])))
+                  (pre ++ [mkEinput pos (cv_apply Rops PI None ex_mass pos (ex_cv h sb true kT) f) fb true])))
   = f + (if h then 0 else cv_fj Rops PI None ex_mass pos (ex_cv h sb true kT)).
 Proof.
   destruct (ex_split_ok pos h sb true kT) as (A & B & C).
-  exact (thm_inverse_same_step None ex_mass (ex_cv h sb true kT) inc pre s (mkEinput pos (cv_apply Rops PI None ex_mass pos (ex_cv h sb true kT) f) fb) f eq_refl A B C (fun _ _ => eq_refl)).
+  exact (thm_inverse_same_step None ex_mass (ex_cv h sb true kT) inc pre s (mkEinput pos (cv_apply Rops PI None ex_mass pos (ex_cv h sb true kT) f) fb true) f eq_refl A B C (fun _ _ => eq_refl)).
 Qed.
 Lemma ex_subtract pre s pos F fb1 i2 h kT :
-  last_ft (snd (eng_run Rops PI None ex_mass (ex_cv h true false kT) true s (pre ++ [mkEinput pos F fb1; i2])))
+  last_ft (snd (eng_run Rops PI None ex_mass (ex_cv h true false kT) true s (pre ++ [mkEinput pos F fb1 true; i2])))
   = cv_proj Rops PI None ex_mass pos (ex_cv h true false kT) F + (if h then 0 else cv_fj Rops PI None ex_mass pos (ex_cv h true false kT)).
 Proof.
   destruct (ex_split_ok pos h true false kT) as (A & B & C).
-  exact (thm_subtract_applied None ex_mass (ex_cv h true false kT) pre s (mkEinput pos F fb1) i2 eq_refl eq_refl A B C).
+  exact (thm_subtract_applied None ex_mass (ex_cv h true false kT) pre s (mkEinput pos F fb1 true) i2 eq_refl eq_refl eq_refl A B C).
 Qed.
